@@ -97,6 +97,7 @@ func RunOne(p *sym.Program, name string, o Options) *HarnessRun {
 	}
 	cfg.Deadline = time.Now().Add(time.Duration(to) * time.Second)
 	cfg.MaxConc = hc.MaxConc
+	cfg.MaxStates = hc.MaxStates
 	cfg.Replace = map[string]*ssa.Function{}
 	for _, u := range hc.Use {
 		tgt, ok := p.Stubs[u]
